@@ -255,6 +255,58 @@ func checkC02(c *Ctx, r *Result, tier string) {
 		})
 		key := c.FuncKey(fn)
 		if len(posts) == 0 {
+			// the bookkeeping may live in a helper that reports "this was the last one" to its
+			// caller: every returned value is the zero test taken after the decrement, and every
+			// caller posts exactly under that result
+			if okFlag, whyFlag := c02ReturnsZeroTest(fn, fUnfinished); okFlag {
+				callers := 0
+				for _, caller := range c.ModFuncs() {
+					if c.PkgOf(caller) != c.PkgOf(fn) {
+						continue
+					}
+					for _, site := range callSites(caller, func(_ string, ci ssa.CallInstruction) bool { return ci.Common().StaticCallee() == fn }) {
+						callers++
+						ckey := c.FuncKey(caller)
+						cposts := callSites(caller, func(name string, ci ssa.CallInstruction) bool {
+							return strings.HasSuffix(name, "pubsub.EventPump.PostEvent")
+						})
+						if len(cposts) == 0 {
+							r.Report(Finding{Rule: "R02b-post", Site: ckey + "#post", Pos: c.Pos(caller.Pos()),
+								Msg: ckey + " learns from " + key + " that the last monitor finished but never posts the finished notification"})
+							continue
+						}
+						for i, p := range cposts {
+							n++
+							psite := fmt.Sprintf("%s#PostEvent#%d", ckey, i)
+							ppos := c.Pos(c.InstrPos(p))
+							under := false
+							if v, isVal := site.(ssa.Value); isVal {
+								under = FactsAt(p).TrueV[v]
+							}
+							if under {
+								r.Instance("R02b-post", psite, ppos, "ok", "posted exactly under the result of "+fn.Name()+"(), which is unfinished == 0 read after the decrement", true)
+							} else {
+								r.Instance("R02b-post", psite, ppos, "finding", "post not under the helper's result", true)
+								r.Report(Finding{Rule: "R02b-post", Site: psite, Pos: ppos, Msg: ckey + ": the finished notification is not control dependent on the result of " + fn.Name() + "() (the zero test of the unfinished counter): it could fire early, late or more than once"})
+							}
+							if lf := lfs.Of(caller); lf != nil {
+								if held := lf.MayHoldClasses(p); len(held) > 0 {
+									r.Instance("R02d-post-outside-lock", psite, ppos, "finding", "posted with "+strings.Join(held, ",")+" possibly held", true)
+									r.Report(Finding{Rule: "R02d-post-outside-lock", Site: psite, Pos: ppos,
+										Msg: fmt.Sprintf("%s: the finished notification is posted while %s may be held: observers run under the monitor lock and any of them touching the monitor deadlocks", ckey, strings.Join(held, ","))})
+								} else {
+									r.Instance("R02d-post-outside-lock", psite, ppos, "ok", "no lock held at the post", true)
+								}
+							}
+						}
+					}
+				}
+				if callers > 0 {
+					continue
+				}
+				whyFlag = "it returns the zero test but is never called"
+				_ = whyFlag
+			}
 			r.Report(Finding{Rule: "R02b-post", Site: key + "#post", Pos: c.Pos(fn.Pos()),
 				Msg: key + " decrements the unfinished counter but never posts the finished notification"})
 			continue
@@ -747,4 +799,46 @@ func c02ObserverScope(c *Ctx, r *Result) {
 		}
 	}
 	r.Floor("R02a-scope", n, 2)
+}
+
+
+// c02ReturnsZeroTest: fn has a bool result and every value it returns there is the comparison
+// `unfinished == 0` whose load follows the decrement.
+func c02ReturnsZeroTest(fn *ssa.Function, f *types.Var) (bool, string) {
+	idx := -1
+	for i := 0; i < fn.Signature.Results().Len(); i++ {
+		if fn.Signature.Results().At(i).Type().String() == "bool" {
+			idx = i
+		}
+	}
+	if idx < 0 {
+		return false, "no bool result"
+	}
+	var dec *ssa.Store
+	for _, a := range accessesOf(fn, f) {
+		if st, ok := a.Instr.(*ssa.Store); ok && a.Write {
+			if d, ok := storeDelta(st); ok && d < 0 {
+				dec = st
+			}
+		}
+	}
+	if dec == nil {
+		return false, "no decrement"
+	}
+	rvs := returnedValues(fn, idx)
+	if len(rvs) == 0 {
+		return false, "no returned value"
+	}
+	for _, rv := range rvs {
+		bo, ok := unspill(rv).(*ssa.BinOp)
+		if !ok || bo.Op != token.EQL {
+			return false, "returned value is not the zero test"
+		}
+		k, isC := constInt(bo.Y)
+		ld, isLoad := bo.X.(*ssa.UnOp)
+		if !isC || k != 0 || !isLoad || fieldVar(ld.X) != f || !dominates(dec, ld) {
+			return false, "returned value is not the zero test after the decrement"
+		}
+	}
+	return true, ""
 }
